@@ -44,16 +44,16 @@ func run(c *lib.Ctx) error {
 	}
 	if c.Thorough() {
 		bounds = []mcBound{
-			{"gen", 2, 1, 2, `{"no", "end", "begin"}`, `{FALSE, TRUE}`, 3},
-			{"gen", 2, 2, 1, `{"no", "end"}`, `{FALSE, TRUE}`, 2},
-			{"curated", 0, 0, 3, `{"no"}`, `{FALSE}`, 3},
+			{"gen", 2, 1, 2, `{"no", "end", "begin"}`, `{FALSE, TRUE}`, 2},
+			{"gen", 2, 2, 1, `{"no", "end"}`, `{FALSE}`, 2},
+			{"curated", 0, 0, 3, `{"no"}`, `{FALSE}`, 2},
 		}
 	}
 	var bs []string
 	for _, b := range bounds {
 		bs = append(bs, strings.ReplaceAll(string(b.cfg()[:strings.IndexByte(string(b.cfg()), '\n')]), `"`, "'"))
 	}
-	c.Set("bounds", map[string]any{"exhaustive": bs, "random_worlds": c.Pick(100, 3000), "random_modules": "1..6", "random_ops": "1..8"})
+	c.Set("bounds", map[string]any{"exhaustive": bs, "random_worlds": c.Pick(100, 2000), "random_modules": "1..6", "random_ops": "1..8"})
 	seen := map[string]bool{}
 	for _, b := range bounds {
 		r, err := c.TLC(fmt.Sprintf("MCModules(%s,%d,%d,%d)", b.family, b.nmods, b.maxImp, b.maxOps), lib.TLCRun{Dir: dir, Module: "MCModules", Workers: 6, Timeout: 13 * time.Minute, HeapGB: 8,
@@ -84,24 +84,22 @@ func run(c *lib.Ctx) error {
 			behs[len(behs)/2].Ops[0].Evals[0] += 7
 		}
 		c.Logf("model %s: %d distinct states, %d transitions, %d behaviours", b.family, r.Distinct, r.Generated, len(behs))
-		for i, beh := range behs {
-			replayBehaviour(c, beh)
-			if i < 1 {
-				c.Sample(map[string]any{"files": beh.files(), "ops": beh.opTexts()})
-			}
-		}
+		c.Sample(map[string]any{"files": behs[0].files(), "ops": behs[0].opTexts()})
+		lib.Parallel(len(behs), 6, func(i int) { replayBehaviour(c, behs[i]) })
 		c.AddTraces(len(behs))
 	}
 	c.Set("exhaustive", true)
 
 	// ---- V
-	n := c.Pick(100, 3000)
+	n := c.Pick(100, 2000)
 	rng := newRand(c.Seed)
 	groups := make([][]Case, n)
+	worlds := make([][]Mod, n)
+	opss := make([][]TopOp, n)
 	for i := 0; i < n; i++ {
-		w, ops := RandomWorld(rng)
-		groups[i] = record(c, w, ops)
+		worlds[i], opss[i] = RandomWorld(rng)
 	}
+	lib.Parallel(n, 6, func(i int) { groups[i] = record(c, worlds[i], opss[i]) })
 	c.Sample(groups[0][:min(3, len(groups[0]))])
 	if os.Getenv("VERIF_CORRUPT") == "v" {
 		e := &groups[1][len(groups[1])-1]
